@@ -2,6 +2,7 @@ package verifworld
 
 import (
 	"fmt"
+	"sort"
 
 	"metacontroller/pkg/apis/metacontroller/v1alpha1"
 	vs "metacontroller/pkg/internal/verifsim"
@@ -38,6 +39,8 @@ type CtlConfig struct {
 	SSA              bool              `json:"ssa,omitempty"`
 	ParentSelector   map[string]string `json:"parentSelector,omitempty"`     // controller-level label selector on parents
 	ParentAnnSel     map[string]string `json:"parentAnnotationSel,omitempty"` // decorator annotation selector
+	// SelAsExpressions renders both selectors as matchExpressions (key In [value]) instead of matchLabels.
+	SelAsExpressions bool `json:"selectorsAsExpressions,omitempty"`
 	FieldPaths       []string          `json:"fieldPaths,omitempty"`
 	IgnoreStatus     bool              `json:"ignoreStatusChanges,omitempty"`
 	Strict           bool              `json:"strict,omitempty"`
@@ -54,6 +57,23 @@ const (
 )
 
 func strp(s string) *string { return &s }
+
+// labelSelector renders a key=value map as matchLabels or as equivalent matchExpressions.
+func (cfg *CtlConfig) labelSelector(m map[string]string) *metav1.LabelSelector {
+	if !cfg.SelAsExpressions {
+		return &metav1.LabelSelector{MatchLabels: m}
+	}
+	ls := &metav1.LabelSelector{}
+	keys := make([]string, 0, len(m))
+	for k := range m {
+		keys = append(keys, k)
+	}
+	sort.Strings(keys)
+	for _, k := range keys {
+		ls.MatchExpressions = append(ls.MatchExpressions, metav1.LabelSelectorRequirement{Key: k, Operator: metav1.LabelSelectorOpIn, Values: []string{m[k]}})
+	}
+	return ls
+}
 func boolp(b bool) *bool    { return &b }
 
 func webhook(url string, cfg *CtlConfig) *v1alpha1.Hook {
@@ -86,7 +106,7 @@ func (cfg *CtlConfig) CompositeObject(sim *vs.Server) *v1alpha1.CompositeControl
 		cc.Spec.ParentResource.RevisionHistory = &v1alpha1.CompositeControllerRevisionHistory{FieldPaths: cfg.FieldPaths}
 	}
 	if cfg.ParentSelector != nil {
-		cc.Spec.ParentResource.LabelSelector = &metav1.LabelSelector{MatchLabels: cfg.ParentSelector}
+		cc.Spec.ParentResource.LabelSelector = cfg.labelSelector(cfg.ParentSelector)
 	}
 	if cfg.IgnoreStatus {
 		cc.Spec.ParentResource.IgnoreStatusChanges = boolp(true)
@@ -133,10 +153,11 @@ func (cfg *CtlConfig) DecoratorObject(sim *vs.Server) *v1alpha1.DecoratorControl
 		pd := sim.Def(pr)
 		rule := v1alpha1.DecoratorControllerResourceRule{ResourceRule: v1alpha1.ResourceRule{APIVersion: pd.APIVersion(), Resource: pd.Resource}}
 		if cfg.ParentSelector != nil {
-			rule.LabelSelector = &metav1.LabelSelector{MatchLabels: cfg.ParentSelector}
+			rule.LabelSelector = cfg.labelSelector(cfg.ParentSelector)
 		}
 		if cfg.ParentAnnSel != nil {
-			rule.AnnotationSelector = &v1alpha1.AnnotationSelector{MatchAnnotations: cfg.ParentAnnSel}
+			ls := cfg.labelSelector(cfg.ParentAnnSel)
+			rule.AnnotationSelector = &v1alpha1.AnnotationSelector{MatchAnnotations: ls.MatchLabels, MatchExpressions: ls.MatchExpressions}
 		}
 		if cfg.IgnoreStatus {
 			rule.IgnoreStatusChanges = boolp(true)
